@@ -2314,7 +2314,28 @@ def child_lookup_exact(repo, run, rule):
                 bad.append('%s(%r) on children {0, \'1\', \'k\'} raises %s' % (q.split('.')[-1], name, r.raised))
             elif r.ret is not exp and r.ret != exp:
                 bad.append('%s(%r) on a mapping with the children {0, \'1\', \'k\'} gives %r, expected %r: keys of different type / spelling are different keys' % (q.split('.')[-1], name, r.ret, exp))
-    run.table(rule, rows, 'get_child / has_child over stored and similar-looking keys')
+    # the same through the path API: get_node([name]) finds exactly that key, any other spelling is a missing path (KeyError)
+    from ..fde import PathVal
+    gn = repo.func('ComposedNode.ayns.get_node')
+
+    def pv(x):
+        if isinstance(x, PathVal):
+            return x
+        return PathVal(list(x) if x is not None else [], '.'.join(map(str, x or [])))
+    for name, want in ((0, A), ('0', None), ('1', B), (1, None), ('k', C), ('K', None)):
+        me = node_obj('map', 'ConfigDict', _children={0: A, '1': B, 'k': C})
+        f = FDE(repo, stubs={'get_list_path'}, stub=lambda n_, recv, a, k: pv(a[0] if a else None), max_depth=8)
+        f.constructors = {'NodePath': lambda *a, **k: pv(a[0] if a else None)}
+        try:
+            r = f.call(gn, me, pv([name]))
+        except Unsupported as e:
+            raise AnalysisError('%s: get_node on a concrete mapping not evaluable: %s' % (rule, e))
+        rows += 1
+        if want is not None and (r.raised or r.ret is not want):
+            bad.append('get_node([%r]) on a mapping with the children {0, \'1\', \'k\'} gives %s, expected the child stored under that key' % (name, r.raised or r.ret))
+        elif want is None and r.raised != 'KeyError':
+            bad.append('get_node([%r]) on a mapping with the children {0, \'1\', \'k\'} gives %s, expected KeyError: a path component of another type / spelling addresses another key (merging prunes and compares entries through this lookup)' % (name, r.raised or r.ret))
+    run.table(rule, rows, 'get_child / has_child / get_node over stored and similar-looking keys')
     if bad:
         run.violation(rule, repo.func('ComposedNode.ayns.get_child'), 'child lookup by exact key', bad[0] + (' [%d rows]' % len(bad) if len(bad) > 1 else ''), witness=bad[:4])
     else:
@@ -2363,18 +2384,30 @@ def plain_container_table(repo, run, rule):
         fi = repo.func(q)
         for n in (0, 2, 3):
             nodes = [node_obj('N%d' % i) for i in range(n)]
-            names = ['k%d' % i for i in range(n)] if cls == 'ConfigDict' else list(range(n))
+            from ..fde import NodeInt
+            # (mapping keys are nodes whatever their type: the last key of the 3-children mapping is an integer scalar node)
+            names = (['k%d' % i for i in range(n)] if n < 3 else ['k0', 'k1', NodeInt(7)]) if cls == 'ConfigDict' else list(range(n))
             me = node_obj('me', cls, _children=dict(zip(names, nodes)))
             log = []
+
+            from ..fde import PathVal
+
+            def pv(x):
+                if isinstance(x, PathVal):
+                    return x
+                return PathVal(list(x) if x is not None else [], '.'.join(map(str, x or [])))
 
             def stub(name, recv, a, k, log=log):
                 if name == 'evaluate_node':
                     log.append((a[0], list(a[1]) if len(a) > 1 and a[1] is not None else None))
                     return ('EV', getattr(a[0], 'name', a[0]))
+                if name == 'get_list_path':
+                    return pv(a[0] if a else None)
                 raise Unsupported('call of ' + name)
-            f = FDE(repo, stubs={'evaluate_node'}, stub=stub, max_depth=8)
-            f.constructors = {'Bunch': lambda *a, **k: ('Bunch', list(a[0].items()) if a and isinstance(a[0], dict) else (list(a[0]) if a else []))}
-            r = fde_guard(lambda: f.call(fi, me, ['p'], Obj('ctx', 'EvalContext')))
+            f = FDE(repo, stubs={'evaluate_node', 'get_list_path'}, stub=stub, max_depth=10)
+            f.constructors = {'Bunch': lambda *a, **k: ('Bunch', list(a[0].items()) if a and isinstance(a[0], dict) else (list(a[0]) if a else [])),
+                              'NodePath': lambda *a, **k: pv(a[0] if a else None)}
+            r = fde_guard(lambda: f.call(fi, me, pv(['p']), Obj('ctx', 'EvalContext')))
             rows += 1
             what = '%s with %d children' % (q.split('.')[0], n)
             if r.raised:
@@ -2385,7 +2418,7 @@ def plain_container_table(repo, run, rule):
                 if cls == 'ConfigDict':
                     want_log.append((nm, None))
                 want_log.append((nd, ['p', nm]))
-                want_ret.append((('EV', nm), ('EV', nd.name)) if cls == 'ConfigDict' else ('EV', nd.name))
+                want_ret.append((('EV', getattr(nm, 'name', nm)), ('EV', nd.name)) if cls == 'ConfigDict' else ('EV', nd.name))
             got_ret = r.ret[1] if isinstance(r.ret, tuple) and r.ret and r.ret[0] == 'Bunch' else r.ret
             if [(x[0] if not isinstance(x[0], Obj) else x[0].name, x[1]) for x in log] != [(x[0] if not isinstance(x[0], Obj) else x[0].name, x[1]) for x in want_log]:
                 bad.append('%s: evaluates %s, expected %s (every child once, in order, under the container\'s path + its name)' % (what, [(getattr(x[0], 'name', x[0]), x[1]) for x in log], [(getattr(x[0], 'name', x[0]), x[1]) for x in want_log]))
